@@ -8,7 +8,7 @@ self._pre_dispatch_amount -- an attribute that only the parallel path
 `finally` replaces the task's exception.  Closing a sequential output generator
 early (return_as='generator') raises the same AttributeError from close().
 """
-import os, sys; ROOT = os.environ.get("JOBLIB_ROOT", "/tmp/wt_t1"); sys.path.insert(0, ROOT); os.environ["PYTHONPATH"] = ROOT + os.pathsep + os.environ.get("PYTHONPATH", "")
+import os, sys; ROOT = os.environ.get("JOBLIB_ROOT", "/repo"); sys.path.insert(0, ROOT); os.environ["PYTHONPATH"] = ROOT + os.pathsep + os.environ.get("PYTHONPATH", "")
 import io
 import contextlib
 
